@@ -80,7 +80,11 @@ func childNames(kind string, rot int) []string {
 			// names longer than any fixed-size scratch buffer a lookup might
 			// hash them in (65, 129 and 300 bytes; multi-byte ones too)
 			{strings.Repeat("n", 65), c[0], strings.Repeat("語", 43), c[1], strings.Repeat("long-name/", 0) + strings.Repeat("q", 300), c[2]},
-		}[rot%6]
+			// two child shards under the root (buckets 1 and 5 at fanout 8), in
+			// either order of insertion
+			{gen.BucketProbeNames[6][8], gen.BucketProbeNames[6][40], gen.BucketProbeNames[6][9], gen.BucketProbeNames[6][41], c[0], "é"},
+			{gen.BucketProbeNames[6][16], gen.BucketProbeNames[6][17], gen.BucketProbeNames[6][8], gen.BucketProbeNames[6][9], gen.BucketProbeNames[6][0], c[1]},
+		}[rot%8]
 	}
 	return [][]string{
 		{"a", "a ", "é", " a", "..", "%2F"},
@@ -231,13 +235,20 @@ func (t treeSpec) build(s *store.Store, seed *int) (*builtTree, error) {
 			return nil, err
 		}
 		return &builtTree{Kind: "sym", Cid: l.(cidlink.Link).Cid, Size: sz, Content: []byte(target)}, nil
-	case "dir", "dirU", "hamt", "hamtM":
+	case "dir", "dirU", "hamt", "hamtM", "hamt2":
 		bt := &builtTree{Kind: t.Kind, Children: map[string]*builtTree{}}
 		nk := t.Kind
 		if nk == "hamtM" {
 			nk, bt.Kind = "hamt", "hamt" // same names; the model reads it like any HAMT
 		}
 		names := childNames(nk, nameRot(t))
+		if nk == "hamt2" {
+			// a sharded directory (fanout 8) whose root holds two child shards
+			// (buckets 1 and 5) and a value link in bucket 0
+			nk, bt.Kind = "hamt", "hamt"
+			p := gen.BucketProbeNames[6]
+			names = []string{p[8], p[40], p[9], p[41], p[0], p[42]}
+		}
 		var es []gen.DirEntry
 		for i, ch := range t.Children {
 			b, err := ch.build(s, seed)
@@ -252,7 +263,7 @@ func (t treeSpec) build(s *store.Store, seed *int) (*builtTree, error) {
 		if t.Kind == "hamtM" {
 			// root fanout 8, shards below it fanout 16 (same prefix width)
 			bt.Cid, bt.Size, err = gen.MixedHamt(s, es, []int{8, 16})
-		} else if t.Kind == "hamt" && len(es) > 0 {
+		} else if (t.Kind == "hamt" || t.Kind == "hamt2") && len(es) > 0 {
 			bt.Cid, bt.Size, err = gen.OursSharded(s, 8, es)
 		} else if t.Kind == "hamt" {
 			// an empty sharded directory can only come from the reference writer
@@ -386,6 +397,9 @@ func pathTrees(quick bool) []treeSpec {
 		treeSpec{Kind: "fE"}, treeSpec{Kind: "fH1"},
 		treeSpec{Kind: "dir", Children: []treeSpec{{Kind: "fE"}, {Kind: "fH1"}, f1}},
 		treeSpec{Kind: "hamt", Children: []treeSpec{{Kind: "fH1"}, {Kind: "fE"}, f1, f1}},
+		treeSpec{Kind: "hamt2", Children: []treeSpec{f1, f1, f1, f1}},
+		treeSpec{Kind: "hamt2", Children: []treeSpec{f1, f1, f1, f1, f1, fN}},
+		treeSpec{Kind: "dir", Children: []treeSpec{{Kind: "hamt2", Children: []treeSpec{f1, f1, f1, f1, f1}}, f1}},
 		treeSpec{Kind: "fR"},
 		treeSpec{Kind: "dir", Children: []treeSpec{{Kind: "fR"}, f1}},
 		treeSpec{Kind: "hamt", Children: []treeSpec{f1, {Kind: "fR"}}})
